@@ -27,6 +27,8 @@ var (
 	ErrAddressRequired = errors.New("address required")
 	// ErrAmountRequired - error on amount required
 	ErrAmountRequired = errors.New("amount required")
+	// ErrAmountMustBePositive - a lock needs a positive amount
+	ErrAmountMustBePositive = errors.New("amount must be positive")
 	// ErrTokenTickerRequired - error on token ticker required
 	ErrTokenTickerRequired = errors.New("token ticker required")
 	// ErrAlreadyExist - error on already exist
@@ -77,6 +79,10 @@ func (bc *BaseContract) TxLockTokenBalance(
 	amount, ok := new(big.Int).SetString(req.GetAmount(), 10) //nolint:gomnd
 	if !ok {
 		return ErrBigIntFromString
+	}
+
+	if amount.Sign() <= 0 {
+		return ErrAmountMustBePositive
 	}
 
 	if err = bc.TokenBalanceLock(address, amount); err != nil {
@@ -248,6 +254,10 @@ func (bc *BaseContract) TxLockAllowedBalance(
 	amount, ok := new(big.Int).SetString(req.GetAmount(), 10) //nolint:gomnd
 	if !ok {
 		return ErrBigIntFromString
+	}
+
+	if amount.Sign() <= 0 {
+		return ErrAmountMustBePositive
 	}
 
 	if err = bc.AllowedBalanceLock(req.GetToken(), address, amount); err != nil {
